@@ -531,6 +531,8 @@ pub fn run(args: &RunArgs) -> i32 {
     let import_docs = AtomicU64::new(0);
     let mut projects = import_projects();
     projects.extend(same_specifier_projects());
+    let own_js: Mutex<BTreeMap<usize, String>> = Mutex::new(BTreeMap::new());
+    let interleaved: Mutex<BTreeMap<usize, String>> = Mutex::new(BTreeMap::new());
     crate::explore::par_for(projects.len(), args.threads, |i| {
         let files = &projects[i];
         let case = |route: &str, extra: J| json!({"files": files, "route": route, "detail": extra});
@@ -561,9 +563,20 @@ pub fn run(args: &RunArgs) -> i32 {
         };
         import_cases.fetch_add(1, Ordering::Relaxed);
         let my = i;
-        let loader_js = match pool.ask(my, &json!({"text": "", "files": files.iter().map(|(p, t)| json!([p, t])).collect::<Vec<_>>()})) {
+        // the loader drives this project interleaved with the next one on the same task table (the next one's module is
+        // cross-checked after the loop), supplying files by one of three strategies
+        let partner = &projects[(i + 1) % projects.len()];
+        let as_pairs = |fs: &Vec<(String, String)>| fs.iter().map(|(p, t)| json!([p, t])).collect::<Vec<_>>();
+        let loader_js = match pool.ask(my, &json!({"text": "", "files": as_pairs(files), "other_files": as_pairs(partner), "strategy": i % 3})) {
             crate::worker::Answer::Done(v) => match v["js"].as_str() {
-                Some(s) => Some(s.to_string()),
+                Some(s) => {
+                    if v["again_js"].as_str() != Some(s) {
+                        rep.report(Violation { key: "imports.loader_second_task_differs".into(), what: "a second task for the same files, created after the first one was freed and while another task waited, emits a different module".into(), case: case("loader-abi", json!({"first": s, "again": v["again_js"]})) });
+                    }
+                    interleaved.lock().unwrap().insert((i + 1) % projects.len(), v["other_js"].as_str().unwrap_or("").to_string());
+                    own_js.lock().unwrap().insert(i, s.to_string());
+                    Some(s.to_string())
+                }
                 None => {
                     rep.report(Violation { key: "imports.loader_fails".into(), what: format!("the loader fails on a project the CLI pipeline accepts: {}", v["error"]), case: case("loader-abi", json!({})) });
                     None
@@ -626,6 +639,20 @@ pub fn run(args: &RunArgs) -> i32 {
             }
         }
     });
+    // the module a project's task emitted while it was the waiting task of its predecessor's request must be the module
+    // it emits when driven first
+    let mut interleaved_compared = 0u64;
+    {
+        let (own, inter) = (own_js.lock().unwrap(), interleaved.lock().unwrap());
+        for (i, js) in inter.iter() {
+            if let Some(mine) = own.get(i) {
+                interleaved_compared += 1;
+                if mine != js {
+                    rep.report(Violation { key: "imports.loader_interleaved_task_differs".into(), what: "a task that waited for its files while another task was emitted and freed and a third one was created emits a module that differs from the one the same files give when driven alone".into(), case: json!({"files": projects[*i], "alone": mine, "interleaved": js}) });
+                }
+            }
+        }
+    }
     let cov = json!({
         "states": distinct.len(),
         "transitions": stats.choice_edges,
@@ -640,6 +667,7 @@ pub fn run(args: &RunArgs) -> i32 {
         "import_projects": projects.len(),
         "import_projects_accepted_and_compared": import_cases.load(Ordering::Relaxed),
         "import_project_documents_compared": import_docs.load(Ordering::Relaxed),
+        "loader_modules_of_interleaved_tasks_compared": interleaved_compared,
         "embedded_documents_compared": compared.load(Ordering::Relaxed),
         "samples": [sample.lock().unwrap().clone().unwrap_or_default()],
     });
@@ -661,7 +689,10 @@ pub fn child_loader() -> i32 {
         let text = text.to_string();
         let cfg = cfg.map(|s| s.to_string());
         // multi-file request: [[path, text], ...], the first one is the root
-        let files: Vec<(String, String)> = req["files"].as_array().map(|a| a.iter().map(|f| (f[0].as_str().unwrap_or("").to_string(), f[1].as_str().unwrap_or("").to_string())).collect()).unwrap_or_default();
+        let pairs = |v: &J| -> Vec<(String, String)> { v.as_array().map(|a| a.iter().map(|f| (f[0].as_str().unwrap_or("").to_string(), f[1].as_str().unwrap_or("").to_string())).collect()).unwrap_or_default() };
+        let files: Vec<(String, String)> = pairs(&req["files"]);
+        let other_files: Vec<(String, String)> = pairs(&req["other_files"]);
+        let strategy_of_request = req["strategy"].as_u64().unwrap_or(0);
         std::thread::spawn(move || {
             if let Some(c) = cfg {
                 let (p, l) = abi(&c);
@@ -671,47 +702,92 @@ pub fn child_loader() -> i32 {
                     return json!({"config_error": true});
                 }
             }
-            let root = files.first().map(|f| f.0.clone()).unwrap_or_else(|| "/p/a.graphql".to_string());
-            let root_text = files.first().map(|f| f.1.clone()).unwrap_or(text);
-            let (fp, fl) = abi(&root);
-            let (sp, sl) = abi(&root_text);
-            let id = graphql_loader::initiate_task(fp, fl, sp, sl);
-            unsafe {
-                graphql_loader::free_string(fp, fl);
-                graphql_loader::free_string(sp, sl);
-            }
-            if id == 0 {
-                return json!({"error": res()});
-            }
-            // the bundler loaders' protocol: supply every file the task asks for until it asks for none
-            for _ in 0..16 {
-                if !graphql_loader::get_required_files(id) {
-                    return json!({"error": res()});
+            let initiate = |files: &[(String, String)], text: &str| -> Result<usize, String> {
+                let root = files.first().map(|f| f.0.clone()).unwrap_or_else(|| "/p/a.graphql".to_string());
+                let root_text = files.first().map(|f| f.1.clone()).unwrap_or(text.to_string());
+                let (fp, fl) = abi(&root);
+                let (sp, sl) = abi(&root_text);
+                let id = graphql_loader::initiate_task(fp, fl, sp, sl);
+                unsafe {
+                    graphql_loader::free_string(fp, fl);
+                    graphql_loader::free_string(sp, sl);
                 }
-                let wanted: Vec<String> = res().split('\n').filter(|s| !s.is_empty()).map(|s| s.to_string()).collect();
-                if wanted.is_empty() {
-                    break;
-                }
-                for w in wanted {
-                    let Some((_, t)) = files.iter().find(|f| f.0 == w) else {
-                        return json!({"error": format!("the loader asks for {w}, which the project does not have")});
-                    };
-                    let (fp, fl) = abi(&w);
-                    let (sp, sl) = abi(t);
-                    let ok = graphql_loader::load_file(id, fp, fl, sp, sl);
-                    unsafe {
-                        graphql_loader::free_string(fp, fl);
-                        graphql_loader::free_string(sp, sl);
+                if id == 0 { Err(res()) } else { Ok(id) }
+            };
+            // the bundler loaders' protocol: supply the files the task asks for until it asks for none.
+            // strategy 0: everything it asks for per round; 1: one file per round; 2: ask twice, then one file per round
+            let feed = |id: usize, files: &[(String, String)], strategy: u64| -> Result<(), String> {
+                for _ in 0..32 {
+                    if !graphql_loader::get_required_files(id) {
+                        return Err(res());
                     }
-                    if !ok {
-                        return json!({"error": res()});
+                    if strategy == 2 && !graphql_loader::get_required_files(id) {
+                        return Err(res());
+                    }
+                    let mut wanted: Vec<String> = res().split('\n').filter(|s| !s.is_empty()).map(|s| s.to_string()).collect();
+                    if wanted.is_empty() {
+                        return Ok(());
+                    }
+                    if strategy != 0 {
+                        wanted.truncate(1);
+                    }
+                    for w in wanted {
+                        let Some((_, t)) = files.iter().find(|f| f.0 == w) else {
+                            return Err(format!("the loader asks for {w}, which the project does not have"));
+                        };
+                        let (fp, fl) = abi(&w);
+                        let (sp, sl) = abi(t);
+                        let ok = graphql_loader::load_file(id, fp, fl, sp, sl);
+                        unsafe {
+                            graphql_loader::free_string(fp, fl);
+                            graphql_loader::free_string(sp, sl);
+                        }
+                        if !ok {
+                            return Err(res());
+                        }
                     }
                 }
+                Err("the task still asks for files after 32 rounds".into())
+            };
+            let emit = |id: usize| -> Result<String, String> {
+                let ok = graphql_loader::emit_js(id);
+                let out = res();
+                if ok { Ok(out) } else { Err(out) }
+            };
+            let strategy = strategy_of_request;
+            if other_files.is_empty() {
+                let id = match initiate(&files, &text) {
+                    Ok(i) => i,
+                    Err(e) => return json!({"error": e}),
+                };
+                let r = feed(id, &files, strategy).and_then(|_| emit(id));
+                graphql_loader::free_task(id);
+                return match r {
+                    Ok(js) => json!({"js": js}),
+                    Err(e) => json!({"error": e}),
+                };
             }
-            let ok = graphql_loader::emit_js(id);
-            let out = res();
-            graphql_loader::free_task(id);
-            if ok { json!({"js": out}) } else { json!({"error": out}) }
+            // two projects interleaved on one task table: the first is emitted and freed while the second still
+            // waits for its files, then a third task (the first project again) is created before the second emits
+            let run = || -> Result<(String, String, String), String> {
+                let t1 = initiate(&files, &text)?;
+                let t2 = initiate(&other_files, &text)?;
+                feed(t1, &files, strategy)?;
+                let js1 = emit(t1)?;
+                graphql_loader::free_task(t1);
+                let t3 = initiate(&files, &text)?;
+                feed(t2, &other_files, strategy)?;
+                let js2 = emit(t2)?;
+                feed(t3, &files, strategy)?;
+                let js3 = emit(t3)?;
+                graphql_loader::free_task(t2);
+                graphql_loader::free_task(t3);
+                Ok((js1, js2, js3))
+            };
+            match run() {
+                Ok((a, b, c)) => json!({"js": a, "other_js": b, "again_js": c}),
+                Err(e) => json!({"error": e}),
+            }
         })
         .join()
         .unwrap_or(json!({"error": "thread panicked"}))
